@@ -12,6 +12,7 @@ import (
 	"strconv"
 	"strings"
 	"sync"
+	"sync/atomic"
 	"time"
 )
 
@@ -227,7 +228,9 @@ func parent(spec *Spec, tier string, seed uint64, vdir, only string, limit int) 
 	}
 	var unlisted []vrec
 	sigCount := map[string]int{}
+	alsoCount := map[string]int{} // further class@site of cases already counted under their first signature
 	var samples []any
+	samplesPerPhase := map[string]int{}
 	outDir := envOr("VERIF_OUT", vdir) // scratch runs against another tree do not touch /verif/evidence
 	replayDir := filepath.Join(outDir, "replays", spec.ID)
 	if only != "" || limit > 0 { // debugging runs leave nothing in the registered directories
@@ -268,6 +271,11 @@ func parent(spec *Spec, tier string, seed uint64, vdir, only string, limit int) 
 			}
 			sig := rest[0].Class + " @ " + rest[0].Site
 			sigCount[sig]++
+			for _, v := range rest[1:] {
+				if s2 := v.Class + " @ " + v.Site; s2 != sig {
+					alsoCount[s2]++
+				}
+			}
 			if sigCount[sig] <= 3 && len(unlisted) < 40 {
 				os.MkdirAll(replayDir, 0o755)
 				p := filepath.Join(replayDir, fmt.Sprintf("%s-%d-%s-%d.json", tier, seed, oc.Phase, oc.Case))
@@ -302,7 +310,8 @@ func parent(spec *Spec, tier string, seed uint64, vdir, only string, limit int) 
 		if r.Nontrivial && len(rest) == 0 && r.Inconclusive == "" {
 			agg.Distinct[hashStr(oc.Phase+"|"+r.Sig)] = true
 		}
-		if r.Sample != nil && len(samples) < 6 && (r.Nontrivial || len(samples) < 2) {
+		if r.Sample != nil && len(samples) < 12 && samplesPerPhase[oc.Phase] < 3 && (r.Nontrivial || samplesPerPhase[oc.Phase] < 1) {
+			samplesPerPhase[oc.Phase]++
 			samples = append(samples, map[string]any{"phase": oc.Phase, "case": oc.Case, "sig": r.Sig, "nontrivial": r.Nontrivial, "sample": r.Sample})
 		}
 	}
@@ -349,6 +358,14 @@ func parent(spec *Spec, tier string, seed uint64, vdir, only string, limit int) 
 		}
 		sort.Strings(sl)
 		fmt.Printf("violating cases: %d; signatures: %s\n", totalSig, strings.Join(sl, "; "))
+		if len(alsoCount) > 0 {
+			var al []string
+			for s, c := range alsoCount {
+				al = append(al, fmt.Sprintf("%s ×%d", s, c))
+			}
+			sort.Strings(al)
+			fmt.Printf("  further signatures in those cases: %s\n", strings.Join(al, "; "))
+		}
 	}
 	if agg.Inconclusive > 0 {
 		fmt.Printf("INCONCLUSIVE property=%s cases=%d reasons=%v\n", spec.ID, agg.Inconclusive, agg.InconReasons)
@@ -362,7 +379,14 @@ func parent(spec *Spec, tier string, seed uint64, vdir, only string, limit int) 
 		if len(agg.Distinct) < floor {
 			tooLittle = fmt.Sprintf("distinct non-trivial cases %d < floor %d", len(agg.Distinct), floor)
 		}
-		for k, min := range spec.MinObserved {
+		floors := map[string]int64{}
+		for k, v := range spec.MinObserved {
+			floors[k] = v
+		}
+		for k, v := range spec.MinObservedTier[tier] {
+			floors[k] = v
+		}
+		for k, min := range floors {
 			got := agg.Counters[k]
 			if s, ok := agg.Sets[k]; ok {
 				got = int64(len(s))
@@ -421,6 +445,9 @@ func parent(spec *Spec, tier string, seed uint64, vdir, only string, limit int) 
 	}
 	if len(sigCount) > 0 {
 		cov["violation_signatures"] = sigCount
+	}
+	if len(alsoCount) > 0 {
+		cov["violation_signatures_secondary"] = alsoCount
 	}
 	if len(samples) == 0 {
 		cov["samples"] = []any{map[string]any{"note": "no case produced a sample"}}
@@ -648,7 +675,23 @@ func doReplay(spec *Spec, path string, race bool, vdir string) int {
 		from, to = rf.BatchFrom, rf.BatchTo
 	}
 	bad := 0
+	budget := time.Duration(ph.CPUBudgetS * float64(time.Second))
+	if budget == 0 {
+		budget = 20 * time.Second
+	}
+	var cur, curStart atomic.Int64
+	go func() { // the same CPU-time verdict as in a worker
+		for {
+			time.Sleep(200 * time.Millisecond)
+			if c := int64(cpuNow()); curStart.Load() > 0 && c-curStart.Load() > int64(budget) {
+				fmt.Printf("REPRODUCED property=%s phase=%s case=%d [non-terminating] consumed more than %.0f CPU-seconds\n", spec.ID, rf.Phase, cur.Load(), budget.Seconds())
+				os.Exit(1)
+			}
+		}
+	}()
 	for i := from; i < to; i++ {
+		cur.Store(int64(i))
+		curStart.Store(int64(cpuNow()) + 1)
 		res := runCase(spec, ph, rf.Tier, rf.Seed, i, race, true, nil)
 		for _, v := range res.Violations {
 			fmt.Printf("REPRODUCED property=%s phase=%s case=%d [%s @ %s]\n%s\n", spec.ID, rf.Phase, i, v.Class, v.Site, v.Detail)
